@@ -133,7 +133,7 @@ def main(tier, seed, extra_programs=None):
     scen_sources, scen_trig = [], {}
     families = [("variables", scenarios.capture_scenarios()[::2] + scenarios.capture_order_scenarios()),
                 ("exits", scenarios.exit_path_scenarios() + scenarios.exception_scenarios() + scenarios.function_ending_scenarios()),
-                ("mixed", scenarios.class_scenarios(random.Random(seed), nmix) + scenarios.iteration_scenarios(random.Random(seed), nmix)
+                ("mixed", scenarios.class_scenarios(random.Random(seed), nmix) + scenarios.iteration_scenarios(random.Random(seed), nmix, exhaustive=False)
                  + scenarios.fiber_scenarios(random.Random(seed), nmix, nfib=2) + scenarios.fiber_switch_context_scenarios())]
     import mrun
     for fname, progs_ in families:
